@@ -29,7 +29,8 @@ type dscenario struct {
 	front       string // drc | drc-C | drc-C-nolog | do-approve | do-compare
 	device      string // initial device configuration (model syntax)
 	target      core.Files
-	hostname    string // what the device reports ("" = router)
+	devName     string // name of the device in Netspoc ("" = router)
+	hostname    string // what the device reports ("" = devName)
 	banner      string // login banner / /etc/issue / vsys display-name
 	checkbanner string // value in the config file, "" = not configured
 	ha          string // PAN-OS HA answer
@@ -38,6 +39,14 @@ type dscenario struct {
 	pass        string
 	key         string
 	nsxExtra    bool // NSX: foreign (non-Netspoc) objects on the manager
+	procEnv     []string // production-stack runs: extra environment of the process
+}
+
+func (sc *dscenario) dn() string {
+	if sc.devName == "" {
+		return "router"
+	}
+	return sc.devName
 }
 
 type drun struct {
@@ -95,7 +104,7 @@ func runDialogue(scr *core.Scratch, sc *dscenario, o runOpts) *drun {
 
 	host := sc.hostname
 	if host == "" {
-		host = "router"
+		host = sc.dn()
 	}
 	r := &drun{files: map[string]string{}}
 	var ssh *sim.SSH
@@ -155,7 +164,7 @@ func runDialogue(scr *core.Scratch, sc *dscenario, o runOpts) *drun {
 		os.Setenv("SIMULATE_ROUTER", web.Start())
 		defer web.Close()
 	}
-	codeFile := filepath.Join(code, "router")
+	codeFile := filepath.Join(code, sc.dn())
 	logDir := filepath.Join(work, "drclog")
 	var mainFunc func() int
 	switch sc.front {
@@ -170,10 +179,10 @@ func runDialogue(scr *core.Scratch, sc *dscenario, o runOpts) *drun {
 		os.Args = []string{"drc", "-C", codeFile}
 	case "do-approve":
 		mainFunc = doapprove.Main
-		os.Args = []string{"do-approve", "approve", "router"}
+		os.Args = []string{"do-approve", "approve", sc.dn()}
 	case "do-compare":
 		mainFunc = doapprove.Main
-		os.Args = []string{"do-approve", "compare", "router"}
+		os.Args = []string{"do-approve", "compare", sc.dn()}
 	default:
 		panic("unknown front end " + sc.front)
 	}
@@ -292,18 +301,18 @@ func prepareWork(work string, sc *dscenario, timeout int) string {
 		os.MkdirAll(filepath.Join(work, d), 0755)
 	}
 	os.Symlink("p1", filepath.Join(work, "policies", "current"))
-	os.WriteFile(filepath.Join(code, "router"), []byte(sc.target.Main), 0644)
+	os.WriteFile(filepath.Join(code, sc.dn()), []byte(sc.target.Main), 0644)
 	if sc.target.V6 != "" {
-		os.WriteFile(filepath.Join(code, "ipv6", "router"), []byte(sc.target.V6), 0644)
+		os.WriteFile(filepath.Join(code, "ipv6", sc.dn()), []byte(sc.target.V6), 0644)
 	}
 	if sc.target.Raw != "" {
-		os.WriteFile(filepath.Join(code, "router.raw"), []byte(sc.target.Raw), 0644)
+		os.WriteFile(filepath.Join(code, sc.dn()+".raw"), []byte(sc.target.Raw), 0644)
 	}
 	info := sc.target.Info
 	if info == "" {
-		info = fmt.Sprintf(`{"model":"%s","name_list":["router"],"ip_list":["10.1.13.33"]}`, sc.devType)
+		info = fmt.Sprintf(`{"model":"%s","name_list":["%s"],"ip_list":["10.1.13.33"]}`, sc.devType, sc.dn())
 	}
-	os.WriteFile(filepath.Join(code, "router.info"), []byte(info), 0644)
+	os.WriteFile(filepath.Join(code, sc.dn()+".info"), []byte(info), 0644)
 	os.WriteFile(filepath.Join(work, "credentials"), []byte("* admin "+sc.secretPass()+"\n"), 0600)
 	cfg := "basedir = " + work + "\nsystemuser = admin\ntimeout = " + fmt.Sprint(timeout) + "\nlogin_timeout = " + fmt.Sprint(timeout) + "\n"
 	if sc.checkbanner != "" {
